@@ -895,8 +895,14 @@ class IndexLevelGO(IndexLevel):
         for depth, k in enumerate(key):
             edge_nodes[depth] = node
             # only set on first encounter in descent
-            if depth_not_found == -1 and not node.index.__contains__(k):
-                depth_not_found = depth
+            if depth_not_found == -1:
+                if not node.index.__contains__(k):
+                    depth_not_found = depth
+                elif node.targets is None:
+                    raise RuntimeError(f'cannot append duplicate key {key}')
+                elif node.index.loc_to_iloc(k) != node.index.__len__() - 1:
+                    # descent always continues into the last target; any other label has a closed subtree
+                    raise RuntimeError(f'cannot append key {key}: {k} at depth {depth} is not the last label; appending would not preserve tree form')
             if node.targets is not None:
                 node = node.targets[-1]
 
